@@ -220,13 +220,14 @@ json_number(Number) -->
         (   parsing ->
             json_sign_noplus(Sign),
             json_integer(Integer),
-            json_fraction(Fraction),
+            json_fraction(Fraction, Digits),
             json_exponent(Exponent),
-            { (   Exponent >= 0 ->
-                  Base = 10
-              ;   Base = 10.0
-              ),
-              Number is Sign * (Integer + Fraction) * Base ^ Exponent }
+            { (   Digits =:= 0, Exponent >= 0 ->
+                  Number is Sign * Integer * 10 ^ Exponent
+              ;   Mantissa is Integer * 10 ^ Digits + Fraction,
+                  Exponent10 is Exponent - Digits,
+                  json_float(Sign, Mantissa, Exponent10, Number)
+              ) }
         ;   { number_chars(Number, NumberChars) },
             NumberChars
         ).
@@ -257,11 +258,22 @@ json_onenine(7) --> "7".
 json_onenine(8) --> "8".
 json_onenine(9) --> "9".
 
-json_fraction(0)        --> "".
-json_fraction(Fraction) -->
+/*  The fraction is the integer `Value` divided by 10 ^ `Digits`; no fraction is 0 digits. */
+json_fraction(0, 0)          --> "".
+json_fraction(Value, Digits) -->
         ".",
         json_digits(Value, Power),
-        { Fraction is Value / 10.0 ^ (Power + 1) }.
+        { Digits is Power + 1 }.
+
+/*  The float nearest to Sign * Mantissa * 10 ^ Exponent. The decimal is handed to `number_chars/2` as one
+    literal: assembling it with floating point operations rounds several times, so that for example
+    "1.118" was not read as 1.118 and the text generated for a float was not read back as that float. */
+json_float(Sign, Mantissa, Exponent, Number) :-
+        number_chars(Mantissa, MantissaChars),
+        number_chars(Exponent, ExponentChars),
+        append(MantissaChars, ['.', '0', e | ExponentChars], Chars),
+        number_chars(Magnitude, Chars),
+        Number is Sign * Magnitude.
 
 json_exponent(0)        --> "".
 json_exponent(Exponent) -->
